@@ -10,6 +10,8 @@ COMMON = [
 
 
 def _gen_read_walk(log):
+    import sys, os
+    sys.path.insert(0, os.path.join(os.path.dirname(os.path.dirname(os.path.abspath(__file__))), "gen"))
     import gen_read_walk
     gen_read_walk.generate(log)
 
@@ -20,6 +22,65 @@ def _gen_opcodes(log):
 
 
 PROPS = {
+    "C01": {
+        "prefixes": ["c01"],
+        "generators": [_gen_read_walk],
+        "assumptions": COMMON + [
+            "inputs are byte strings of length <= N (N per harness, in `bounds`) and symbolic read arguments; longer inputs are outside the claim",
+            "offsets are followed to walk depth DEPTH (harness/k_read/src/lib.rs); deeper chains are outside the claim",
+            "thread schedules and 'wherever the bytes sit in memory' are not encodable in Kani; only the relocation harnesses (c01_reloc_*) decide position independence, for the types they name",
+        ],
+        "explanation": "every FontRead/FontReadWithArgs impl found in /repo/read-fonts is read from a symbolic buffer and every generated accessor (and each hand-written accessor whose arguments can be synthesised) is called on the result; any reachable panic or unbounded loop fails",
+    },
+    "C02": {
+        "prefixes": ["c02"],
+        "generators": [_gen_opcodes],
+        "select": lambda hs, tier, seed: _rotate(hs, tier, seed, "c02_op2_", 120),
+        "assumptions": COMMON + [
+            "the interpreter is stepped from a directly constructed state (see harness/incrate/engine.rs header), not through HintingInstance/OutlineGlyph::draw; whole-font drawing, the CFF hinter, the auto-hinter and the entire IFT client are outside the claim",
+        ],
+        "explanation": "TrueType interpreter: one decode+dispatch per opcode (256 queries) from an arbitrary stack/zones/cvt/storage state; two-step setter;op queries (thorough, VERIF_SEED-rotated subset); budget/stack/definition kernels",
+    },
+    "C06": {
+        "prefixes": ["c06"],
+        "assumptions": COMMON + ["FontBuilder::build's own assembly (ordering, offsets, padding placement, insertion-order independence, copy_missing_tables) is NOT decided: BTreeMap/Vec churn is out of CBMC's reach (probe: > 16 min, 7 GB)"],
+        "explanation": "checksum arithmetic vs the spec, additivity over padded concatenation, head-adjustment identity, and FontRef::table_data on a symbolic 3-record directory",
+    },
+    "C08": {
+        "prefixes": ["c08"],
+        "assumptions": COMMON + ["reader half: lookups vs the spec on symbolic subtables; writer half: create_format_4 kernels (write-fonts hook) where built"],
+        "explanation": "cmap format 4/12 lookup and iteration vs a transcription of the OpenType spec, for every code point",
+    },
+    "C09": {
+        "prefixes": ["c09"],
+        "assumptions": COMMON,
+        "explanation": "simple-glyph decoding vs the glyf spec; encoder kernels where built",
+    },
+    "C10": {
+        "prefixes": ["c10"],
+        "assumptions": COMMON,
+        "explanation": "packed point numbers / packed deltas vs the spec decoders",
+    },
+    "C11": {
+        "prefixes": ["c11"],
+        "assumptions": COMMON,
+        "explanation": "axis normalisation, avar segment maps, region tent scalars and delta-set index maps vs their specified values",
+    },
+    "C16": {
+        "prefixes": ["c16"],
+        "assumptions": COMMON,
+        "explanation": "coverage / class-definition lookups vs the spec for every glyph id (reader side only)",
+    },
+    "C20": {
+        "prefixes": ["c20"],
+        "generators": [_gen_read_walk, _gen_opcodes],
+        "select": lambda hs, tier, seed: _c20_select(hs, tier, seed),
+        "assumptions": COMMON + [
+            "C20 is a reading of the same solver runs as C01/C02/C06-C16: every `attempt to ... with overflow` check and every debug_assert on the explored paths; a candidate counts only if the native dev-profile replay panics with the same message",
+            "inputs are font bytes through public read entry points, public API arguments, or interpreter state one real instruction away from the default state",
+        ],
+        "explanation": "overflow / debug-assertion freedom on every path the other properties' harnesses explore",
+    },
     "C15": {
         "prefixes": ["c15"],
         "e2": False,
@@ -31,6 +92,26 @@ PROPS = {
         "explanation": "font-types scalar/fixed-point types vs exact reference models, full machine width unless a harness states a slice",
     },
 }
+
+
+def _rotate(hs, tier, seed, prefix, n):
+    """keep everything not starting with `prefix`; of those that do, a seed-rotated window of n"""
+    rot = sorted([h for h in hs if h["fn"].startswith(prefix)], key=lambda h: h["fn"])
+    rest = [h for h in hs if not h["fn"].startswith(prefix)]
+    if rot:
+        k = (seed * n) % len(rot)
+        rot = (rot + rot)[k:k + n]
+    return rest + rot
+
+
+def _c20_select(hs, tier, seed):
+    hs = _rotate(hs, tier, seed, "c02_op2_", 60)
+    if tier == "quick":
+        # quick: the arithmetic-heavy hand-written harnesses + the one-step opcode queries;
+        # the generated table walkers run under C20 in the thorough tier
+        hs = [h for h in hs if not h["fn"].startswith("c01_read_") and not h["fn"].startswith("c01_hw_")] \
+            + _rotate([h for h in hs if h["fn"].startswith("c01_hw_")], tier, seed, "c01_hw_", 30)
+    return hs
 
 
 def select(prop, tier, seed, allh):
